@@ -175,12 +175,13 @@ def run(ctx):
         ctx.sample(desc, cap=8)
     core.pmap(one, jobs)
 
-    # ---- several operands in one invocation (thorough): every operand must end in a safe state of its own
-    if not q:
-        parts = [gen.textlike(rnd, 200000), gen.uniform(rnd, 150000), b'', gen.runs(rnd, 260000)]
+    # ---- several operands in one invocation: every operand must end in a safe state of its own, whatever happens to a later one
+    if True:
+        parts = [gen.textlike(rnd, 200000), gen.uniform(rnd, 150000), b'', gen.runs(rnd, 260000)] if not q else \
+            [gen.textlike(rnd, 120000), b'', gen.uniform(rnd, 60000)]
         comps = [core.run([hook, '-1', '-n', '2'], stdin=p, timeout=120).out for p in parts]
-        mcases = [dict(direction='compress', args=['-1', '-n', '2'], ins=parts, outs=comps, names=['m%d' % i for i in range(4)], suffix=('', '.bz2')),
-                  dict(direction='decompress', args=['-d', '-n', '3'], ins=comps, outs=parts, names=['m%d.bz2' % i for i in range(4)], suffix=('.bz2', ''))]
+        mcases = [dict(direction='compress', args=['-1', '-n', '2'], ins=parts, outs=comps, names=['m%d' % i for i in range(len(parts))], suffix=('', '.bz2')),
+                  dict(direction='decompress', args=['-d', '-n', '3'], ins=comps, outs=parts, names=['m%d.bz2' % i for i in range(len(parts))], suffix=('.bz2', ''))]
 
         def mexec(mc, rule):
             d = core.tmpdir()
@@ -204,7 +205,7 @@ def run(ctx):
                 continue
             for kind in shim.KINDS:
                 for pos in range(1, cnt[kind] + 1):
-                    if kind in ('read', 'write') and pos % 3:
+                    if kind in ('read', 'write') and pos % (3 if not q else 2):
                         continue
                     for en in ERRS[kind][:1]:
                         mjobs.append((mi, kind, pos, 'err', en))
